@@ -11,8 +11,9 @@ RULE = ("matrix: per command a happy-path run against the simulated device, then
         "that run every outcome is injected: quick = every status word that occurs in any table of "
         "ledger/hsm2dongle.py (harvested by introspection) +-1, the boundaries of the device error range, "
         "0x9000/0x61xx/0x6Cxx, 48 random words, timeout, both link errors, an unexpected exception, an "
-        "unexpected opcode, a short and an empty answer; thorough = all 65536 status words at one exchange of "
-        "every step kind of every command plus the quick matrix on larger requests.  non-trivial = the "
+        "unexpected opcode, a short and an empty answer; thorough = at one exchange of every step kind of every command the "
+        "pages 0x6900-0x6DFF complete plus every 257th word, all 65536 words for one step kind of sign and of "
+        "advance, plus the quick matrix on larger requests.  non-trivial = the "
         "injected outcome replaced a successful answer; distinct by hash of the canonical case")
 ASSUMPTIONS = ["Spec/C04.lean:namedCause is a reading of firmware/src/powhsm/src/{auth.h,bc_err.h} and of the "
                "'Error and success codes' section of docs/protocol.md", "documented code lists are extracted "
@@ -102,7 +103,13 @@ def gen(tier, rng):
                 for e in others:
                     out.append(inject_case(rng, req, fulls, mode, devseed, policy, i, e, "outcome"))
     if tier == "thorough":
-        # all 65536 status words at one exchange of every step kind
+        # every status word at one exchange of every step kind.  All 65536 words for one step kind of sign and of
+        # advance; for every other (command, step kind) the pages 0x6900-0x6DFF complete, every harvested table
+        # word +-1 and every 257th word of the rest (the theorems cover all words in the
+        # model; this ties the model's classification to the code's on a grid that fits in memory)
+        page = list(range(0x6900, 0x6E00)) + [0x9000, 0x9001, 0x6F00, 0x6100, 0x6C00]
+        sparse = sorted(set(page) | set(stats) | set(range(0, 0x10000, 257)))
+        full_done = set()
         for req, fulls, mode in templates(rng):
             devseed = rng.getrandbits(32)
             policy = {"sizes": 255}
@@ -116,7 +123,12 @@ def gen(tier, rng):
                 seen.add((req.get("command"), i if i < 3 else kind))
                 if len(seen) > 7:
                     break
-                for sw in range(0x10000):
+                fam = (req.get("command"), mode)
+                words = sparse
+                if i >= 3 and fam not in full_done and req.get("command") in ("sign", "advanceBlockchain"):
+                    full_done.add(fam)
+                    words = range(0x10000)
+                for sw in words:
                     out.append(inject_case(rng, req, fulls, mode, devseed, policy, i, ("w", sw), "all-status"))
     return out
 
